@@ -84,8 +84,10 @@ func (s Range) append(nums []uint32) (out []uint32, ok bool) {
 	if s.Start == 0 || s.Stop == 0 {
 		return nil, false
 	}
-	for n := s.Start; n <= s.Stop; n++ {
-		nums = append(nums, n)
+	// iterate with a wider type: n++ on a uint32 wraps around when Stop is the
+	// maximum value and the loop would never terminate
+	for n := uint64(s.Start); n <= uint64(s.Stop); n++ {
+		nums = append(nums, uint32(n))
 	}
 	return nums, true
 }
